@@ -4,6 +4,7 @@
    observed by the harness. *)
 From FMP Require Import Base.Bytes Base.Lts Model.Events Model.Skeleton Model.Props Model.Writer Model.Receiver
      Proofs.WriterProofs Proofs.ReceiverProofs Proofs.SkeletonProofs.
+From FMP Require Import Proofs.WriterProgress Proofs.WriterCancel.
 Open Scope Z_scope.
 
 (* both waits of a call, and the hand-off to the writer, select on the caller's context: once it has ended the caller
@@ -50,9 +51,30 @@ Example ex_cancel_reaches : exists st,
     (exists x, hfind 0 (handlers st) = Some x /\ hd_pc x = HRun /\ hd_ctx x = true).
 Proof. eexists. split; [vm_compute; reflexivity|]. eexists. vm_compute. repeat split. Qed.
 
+(* ---------- bounded completion: cancellation ends the call with the call's own steps only ---------- *)
+(* from ANY reachable state, a started call, notification or reply whose context has ended and that has not returned can
+   return using only ITS OWN steps - no step of the writer goroutine, of the peer or of another sender is needed - within 4
+   steps (3 suffice, and the context's error is always reachable: Proofs/WriterCancel.v) *)
+Theorem C08_cancelled_sender_returns : forall ss ls st c s,
+    fresh_ok ss = true -> run (step expected_skeleton) (init ss) ls = Some st ->
+    find c (senders st) = Some s -> s_kind s <> SCancelFrame ->
+    s_pc s <> PNew -> (forall r, s_pc s <> PRet r) -> s_ctx s = true ->
+    exists ls' st' s' r, (length ls' <= 4)%nat /\ forallb (self_label c) ls' = true /\
+       run (step expected_skeleton) st ls' = Some st' /\ find c (senders st') = Some s' /\ s_pc s' = PRet r.
+Proof. exact writer_cancelled_sender_returns. Qed.
+(* the step by which a call gives up after its frame was handed over queues the cancellation frame with the call's seqno *)
+Theorem C08_cancelled_call_queues_cancel : forall ss ls st c s st' s',
+    fresh_ok ss = true -> run (step expected_skeleton) (init ss) ls = Some st ->
+    find c (senders st) = Some s -> s_kind s = SCall -> s_pc s = PCancel ->
+    step expected_skeleton st (LQueueCancel c) = Some st' -> find c (senders st') = Some s' ->
+    s_pc s' = PRet RCtx /\ exists k, find (cancel_nonce c) (senders st') = Some k /\ s_kind k = SCancelFrame /\ s_seq k = s_seq s.
+Proof. exact writer_cancelled_call_queues_cancel. Qed.
+
 Print Assumptions C08_cancel_unblocks.
 Print Assumptions C08_cancel_frame_queued.
 Print Assumptions C08_cancel_frame_can_move.
 Print Assumptions C08_cancel_never_precedes_call.
 Print Assumptions C08_cancel_reaches_only_its_handler.
 Print Assumptions C08_generated_ok.
+Print Assumptions C08_cancelled_sender_returns.
+Print Assumptions C08_cancelled_call_queues_cancel.
